@@ -120,6 +120,10 @@ func (p *Producer) RestartOn(raw *world.CrashDS) error {
 		return err
 	}
 	p.N = n
+	// what the aggregation loop does first when it starts (the production steps of this world are driven one by one)
+	if err := n.M.VerifRepublishCommitted(p.Ctx); err != nil {
+		return fmt.Errorf("aggregation loop cannot start: %w", err)
+	}
 	return nil
 }
 
